@@ -8,7 +8,7 @@ from vlib import core, dom
 
 ID = "C12"
 GEN = ["gas", "oil"]
-PROPS = ["C12_blackoil.v", "C12_spivey.v", "C12_viscosity.v", "C12_continuity.v"]
+PROPS = ["C12_blackoil.v", "C12_spivey.v", "C12_viscosity.v", "C12_continuity.v", "C12_arrays.v"]
 
 
 def run(ctx):
@@ -59,6 +59,34 @@ def run(ctx):
             bad("oil viscosity does not fall with pressure below the bubble point", inp, float(np.diff(mu[ps <= pb]).max()))
         if not (np.all(co > 0) and np.all(np.isfinite(co)) and np.all(mu > 0) and np.all(np.isfinite(mu))):
             bad("undersaturated compressibility / viscosity is not positive", inp, dict(co_min=float(co.min()), mu_min=float(mu.min())))
+        # the same clauses when the pressures come as an array (integer grids, float32, strided views): C12_arrays.v
+        if k % 3 == 0 and pb > 60:
+            grid = np.unique(np.concatenate([np.arange(15, int(2.5 * pb) + 1, max(1, int(pb) // 60)), [int(pb), int(pb) + 1]]))
+            for arr in (grid.astype(np.int64), grid.astype(np.int32), grid.astype(np.float32), np.repeat(grid.astype(np.int64), 2)[::2]):
+                rsi_in = [rsi, int(round(rsi)), np.int64(round(rsi))][k // 3 % 3]   # the GOR as float, Python int, numpy int
+                inp_a = dict(**inp, dtype=str(arr.dtype), Rsi_passed_as=type(rsi_in).__name__, n=len(arr), first=int(arr[0]), last=int(arr[-1]))
+                pb_a = float(oil.pressure_bubblepoint_Standing(T, api, gg, rsi_in))
+                ga = np.asarray(oil.solution_gor_Standing(T, arr, api, gg, rsi_in))
+                ba = np.asarray(oil.b_o_Standing(T, arr, api, gg, rsi_in))
+                pa = arr.astype(float)
+                ev += 2
+                if ga.shape != arr.shape or ba.shape != arr.shape or not np.issubdtype(ga.dtype, np.floating) or not np.issubdtype(ba.dtype, np.floating):
+                    bad("array call does not return a floating array of the input's shape", inp_a, dict(gor_dtype=str(ga.dtype), bo_dtype=str(ba.dtype)))
+                    continue
+                eps = 4 * float(np.finfo(ga.dtype).eps)
+                ab, be = pa >= pb_a, pa < pb_a
+                if np.any(np.abs(ga[ab] - float(rsi_in)) > eps * float(rsi_in)):
+                    bad("solution GOR differs from the initial GOR at/above the bubble point (array argument)", inp_a, [float(x) for x in ga[ab][:3]])
+                if np.any(np.diff(ga) < -eps * float(rsi_in)):
+                    bad("solution GOR decreases with pressure (array argument)", inp_a, float(np.diff(ga).min()))
+                for p_, g_ in list(zip(pa[be], ga[be]))[:: max(1, int(be.sum()) // 8)]:
+                    back = float(oil.pressure_bubblepoint_Standing(T, api, gg, float(g_)))
+                    if not dom.relclose(back, float(p_), max(1e-9, 40 * eps), 1e-6):
+                        bad("solution GOR does not invert the bubble-point correlation below the bubble point (array argument)", dict(**inp_a, p=float(p_)), dict(gor=float(g_), pb_of_gor=back))
+                        break
+                sb = ba[pa <= pb_a]
+                if len(sb) > 1 and np.any(np.diff(sb) <= 0 if ga.dtype == np.float64 else np.diff(sb) < -eps):
+                    bad("oil FVF does not rise with pressure up to the bubble point (array argument)", inp_a, float(np.diff(sb).min()))
         if k < (4 if ctx.quick else 25):
             fa = lambda *xs: " ".join(core.frac(float(x)) for x in xs)
             for p in (float(rng.uniform(15, 0.97 * pb)), float(rng.uniform(1.03 * pb, 2.5 * pb))):
